@@ -216,8 +216,11 @@ def r04_3(ctx):
                 ret = p.end[1]
                 if ret[0] == "agg" and ret[2] == "Ok":
                     ret = dict(ret[3])["0"]
-                if ret[0] == "agg" and ret[1] == "tuple":
-                    txt = dict(ret[3]).get("1")
+                elif ret[0] == "agg" and ret[2] == "Err":
+                    continue
+                # the text is returned next to the buffer link, or alone when the link is updated in place
+                txt = dict(ret[3]).get("1") if (ret[0] == "agg" and ret[1] == "tuple") else ret if not (ret[0] == "agg" and ret[1] == "std::result::Result") else None
+                if txt is not None and not (ret[0] == "call" and "from_residual" in ret[1]):
                     cnt += 1
                     visited = any(e[0] == "call" and e[1].startswith("filter::html_body_action::HtmlBodyVisitor::") for e in p.events)
                     from_data = mentions(txt, lambda x: x == ("param", 3)) or (txt[0] in ("local", "havoc") and any(e[0] in ("set", "init") and e[1] == txt[1] and mentions(e[3], lambda x: x == ("param", 3)) for e in p.events))
